@@ -158,6 +158,14 @@ func checkC05(r *run, c *ExtSeqCase) (CaseInfo, error) {
 		switch op.Kind {
 		case "set":
 			val := expand(op.Seed, 0, op.Len)
+			if op.Len == 0 {
+				// an empty value reaches the library as nil or as an empty non-nil slice
+				val = []byte{}
+				if op.Seed&1 == 1 {
+					val = nil
+					ci.class("nil-value")
+				}
+			}
 			before := extSnapshot(&h)
 			bare := !h.Extension
 			err := h.SetExtension(op.ID, val)
@@ -378,7 +386,7 @@ func genExtSeqCase(t *rapid.T) *ExtSeqCase {
 	return c
 }
 
-const ruleC05 = "rapid draws a start state (fresh, one-byte preset, two-byte preset, legacy preset with any profile (one in six: 0x1001-0x100F, next to the two-byte profile), header decoded from a reference image - half of the time into a Header that decoded 1-2 other images before) and 1-25 operations Set(id 0-255 biased to 0,1,14,15,16,255; value length 0-300 biased to 0,1,16,17,255,256)/Del/Get/Wire(Marshal, with or without payload bytes behind the header, Unmarshal, optionally continue on the decoded header)/Rewire(the header, after further Set/Del calls, decodes the bytes of an earlier Wire step and must hold exactly what they carry)/Fill(set 14-255 consecutive ids with values of up to 255 bytes: the profile filled to capacity, extension blocks up to 65536 bytes); oracle: ordered-map model that follows the return values (nil => applied, error => header observably unchanged incl. Marshal bytes), no panic, every accepted value survives the wire, Marshal may refuse only a legacy value that is not whole words. Non-trivial = sequence with an accepted Set, a replacing Set or effective Del, and a successful Wire after them; distinct = FNV-64 of the JSON case"
+const ruleC05 = "rapid draws a start state (fresh, one-byte preset, two-byte preset, legacy preset with any profile (one in six: 0x1001-0x100F, next to the two-byte profile), header decoded from a reference image - half of the time into a Header that decoded 1-2 other images before) and 1-25 operations Set(id 0-255 biased to 0,1,14,15,16,255; value length 0-300 biased to 0,1,16,17,255,256; empty values as nil or as empty slices)/Del/Get/Wire(Marshal, with or without payload bytes behind the header, Unmarshal, optionally continue on the decoded header)/Rewire(the header, after further Set/Del calls, decodes the bytes of an earlier Wire step and must hold exactly what they carry)/Fill(set 14-255 consecutive ids with values of up to 255 bytes: the profile filled to capacity, extension blocks up to 65536 bytes); oracle: ordered-map model that follows the return values (nil => applied, error => header observably unchanged incl. Marshal bytes), no panic, every accepted value survives the wire, Marshal may refuse only a legacy value that is not whole words. Non-trivial = sequence with an accepted Set, a replacing Set or effective Del, and a successful Wire after them; distinct = FNV-64 of the JSON case"
 
 func TestC05(t *testing.T) {
 	r := begin(t, "C05", "exploration", ruleC05)
